@@ -146,6 +146,11 @@ Record fsobs := mkFS { fs_main : sobs; fs_held : list (option otree) }.
 Inductive case :=
 | CHist (init : tspec) (steps : list (op * sobs))
 | CForest (init : tspec) (steps : list (fop * fsobs))
+(* round 5: the twin of a forest case that falls into a known finding (aliased-insert / floating-copy-explicit-parent).  The
+   check drops model-vs-implementation disagreements of cases whose specification fails under a known finding, so a change of
+   behaviour INSIDE a known-finding class would go unnoticed; the twin carries the same history and observations, is exempt
+   from the specification (it fails there by definition of the finding) and is judged by the correspondence alone *)
+| CCorrOnly (init : tspec) (steps : list (fop * fsobs))
 | CCrash.
 
 Definition model_eq (s : state) (o : op) : option bool :=
@@ -234,6 +239,7 @@ Definition check_corr (c : case) : bool :=
   match c with
   | CHist t steps => corr_steps (init_state t) steps
   | CForest t steps => fcorr_steps (mkF (init_state t) []) steps
+  | CCorrOnly t steps => fcorr_steps (mkF (init_state t) []) steps
   | CCrash => false
   end.
 
@@ -334,6 +340,7 @@ Definition check_spec (c : case) : bool :=
                                && forallb (fun t => match t with Some t' => spec_tree t' [] true 0 [] | None => true end)
                                           (fs_held ob)) steps
       && match steps with (_, ob) :: r => noeff_forest (s_tree (fs_main ob)) (fs_held ob) r | [] => true end
+  | CCorrOnly _ _ => true
   | CCrash => false
   end.
 
@@ -366,4 +373,4 @@ Fixpoint ffirst_bad (fs : fstate) (steps : list (fop * fsobs)) (i : nat) :=
       if ok then ffirst_bad fs' r (S i) else Some (i, kind_of out, observe (f_main fs'), observe_held fs', fmodel_eq fs fs' o)
   end.
 Definition fdebug_case (c : case) :=
-  match c with CForest t steps => ffirst_bad (mkF (init_state t) []) steps O | _ => None end.
+  match c with CForest t steps | CCorrOnly t steps => ffirst_bad (mkF (init_state t) []) steps O | _ => None end.
